@@ -503,8 +503,11 @@ pub fn flags_arch(kinds: &[String], drop: &[bool]) -> Value {
                     let inner = json!({"kind": "conv", "filters": 1, "kernel": [3, 3], "stride": [1, 1], "padding": [1, 1], "act": "tanh", "dropout": d});
                     layers.push(json!({"kind": "feedback", "loops": 2, "acc": "mean", "layers": [inner]}));
                 } else {
+                    // (a dense block WITH skips directly in front of a spatial layer cannot be trained by the library either --
+                    // flat vs spatial gradient in Feedback::backward, DESIGN section 7 -- there the block has no skips)
+                    let next_spatial = kinds.get(i + 1).map(|n| ["conv", "deconv", "conv1", "pool"].contains(&n.as_str())).unwrap_or(false);
                     let inner = json!({"kind": "dense", "out": 16, "act": "tanh", "bias": true, "dropout": d});
-                    layers.push(json!({"kind": "feedback", "loops": 2, "acc": "mean", "inskips": true, "outskips": true, "layers": [inner]}));
+                    layers.push(json!({"kind": "feedback", "loops": 2, "acc": "mean", "inskips": !next_spatial, "outskips": !next_spatial, "layers": [inner]}));
                 }
             }
             "fb" => {
